@@ -1484,7 +1484,8 @@ class Engine:
 
     def e_Dict(self, n, st):
         if any(k is None for k in n.keys):
-            raise OutsideSubset("dict display with **")
+            yield from self._dict_display_unpack(n, st)
+            return
         for st1, ks in self.eval_list(n.keys, st):
             if isinstance(ks, Raised):
                 yield st1, ks
@@ -1502,6 +1503,30 @@ class Engine:
                 kt = ks[0].ty if ks and len({repr(k.ty) for k in ks}) == 1 else TAny
                 vt = vs[0].ty if vs and len({repr(v.ty) for v in vs}) == 1 else TAny
                 yield st2.with_facts(f), sv_dict(dom, mp, kt, vt)
+
+    def _dict_display_unpack(self, n, st):
+        """{**a, k: v, **b}: entries are merged left to right, a later entry wins (language reference 6.2.7)"""
+        x = S.fresh("x", V)
+        nodes = [v if k is None else ast.Tuple(elts=[k, v], ctx=ast.Load()) for k, v in zip(n.keys, n.values)]
+        for st1, vals in self.eval_list(nodes, st):
+            if isinstance(vals, Raised):
+                yield st1, vals
+                continue
+            dom, mp = S.EMPTY_SET, S.NONE_MAP
+            f = Facts()
+            ty = None
+            for k, v in zip(n.keys, vals):
+                if k is None:
+                    if v.kind != "dict":
+                        raise OutsideSubset(f"** of {v.kind} in a dict display")
+                    dom, mp = z3.Lambda([x], Or(dom[x], v.t[0][x])), z3.Lambda([x], z3.If(v.t[0][x], v.t[1][x], mp[x]))
+                    ty = ty or v.ty
+                else:
+                    kv, vv = v.t
+                    kb = box(kv, f)
+                    dom = z3.Store(dom, kb, z3.BoolVal(True))
+                    mp = z3.Store(mp, kb, box(vv, f))
+            yield st1.with_facts(f), SV("dict", (dom, mp), ty or TDict(TAny, TAny))
 
     def e_JoinedStr(self, n, st):
         parts = []
